@@ -11,7 +11,10 @@
 // input line:  <mode> <producers> <messages each> <seed> <perturb 0..3> <sinkdelay 0..2> [<stall ms>]
 //   stall: the sink sleeps that long once, inside its first delivery (a stalled sink); the header reports the longest
 //   logging call (maxcall_us) so that a call blocking on the sink is visible
-// output: RUN header; "EV <tokens>"; "TW p i <dump>" per message; "AS k p i onworker <dump>" per delivery; "END".
+// output: RUN header; "EV <tokens>"; "TW p i <dump>" per message; "AS k p i onworker <dump>" per delivery;
+//         "FL p i onworker" per entry of the sink's flush(); "END".   Messages of all five types incl. QtFatalMsg are sent (fatal
+//         through process()/Logger::processMessage directly: qFatal() itself would abort).  The time field of a dump is
+//         msecs~timeSpec~offsetFromUtc~ISO text, so that a copy that changes the time zone representation is visible.
 #ifdef VERIF_HEADER_ONLY
 #include "qtlogger.h"
 #else
@@ -78,7 +81,8 @@ static std::string dump(const LogMessage &m)
         kv << QString::fromLatin1(k.toUtf8().toHex()) + "=" + QString::fromLatin1(a.value(k).toString().toUtf8().toHex());
     }
     o << (int)m.type() << "|h" << hex(m.message().toUtf8()) << "|" << cs(m.file()) << "|" << m.line() << "|" << cs(m.function()) << "|"
-      << cs(m.category()) << "|" << m.time().toMSecsSinceEpoch() << "|" << m.steadyTime().time_since_epoch().count() << "|"
+      << cs(m.category()) << "|" << m.time().toMSecsSinceEpoch() << "~" << (int)m.time().timeSpec() << "~" << m.time().offsetFromUtc() << "~"
+      << m.time().toString(Qt::ISODateWithMs).toStdString() << "|" << m.steadyTime().time_since_epoch().count() << "|"
       << m.threadId() << "|" << (m.isFormatted() ? "h" + hex(m.formattedMessage().toUtf8()) : std::string("-")) << "|"
       << kv.join(",").toStdString() << "|" << seq.toStdString();
     return o.str();
@@ -98,7 +102,15 @@ struct RandomWork : Handler {
         return true;
     }
 };
+struct FlushRec { int p, i, onworker; };
+static std::vector<FlushRec> g_flushes;
 struct RecSink : Sink {
+    bool flush() override      // a sink entry point as well: must only ever be entered on the logger thread in own-thread mode
+    {
+        std::lock_guard<std::mutex> l(g_async_mx);
+        g_flushes.push_back(FlushRec { tl_prod, tl_idx, QThread::currentThread() == g_worker_thread ? 1 : 0 });
+        return true;
+    }
     void send(const LogMessage &m) override
     {
         int p = -1, i = -1;
@@ -115,11 +127,16 @@ template <class P> static void build(P &pl)
 }
 static char *heapstr(const std::string &s) { char *p = (char *)malloc(s.size() + 1); memcpy(p, s.c_str(), s.size() + 1); return p; }
 static void scrub(char *p) { if (p) { memset(p, 'X', strlen(p)); free(p); } }
-static const QtMsgType TYPES[4] = { QtDebugMsg, QtInfoMsg, QtWarningMsg, QtCriticalMsg };
+static const QtMsgType TYPES[5] = { QtDebugMsg, QtInfoMsg, QtWarningMsg, QtCriticalMsg, QtFatalMsg };
 
 int main(int argc, char **argv)
 {
     QCoreApplication app(argc, argv);
+    {   // Qt's local-time machinery initialises lazily; do it once before any thread exists (harness hygiene: the dumps of
+        // the producers call QDateTime::toString concurrently)
+        QDateTime now = QDateTime::currentDateTime();
+        (void)now.toString(Qt::ISODateWithMs); (void)now.offsetFromUtc(); (void)now.toUTC().toString(Qt::ISODateWithMs);
+    }
     std::string line;
     while (std::getline(std::cin, line)) {
         std::istringstream is(line);
@@ -129,7 +146,7 @@ int main(int argc, char **argv)
         if (mode.empty()) continue;
         g_events.assign((size_t)n * per * 6 + 16, Ev { '?', 0, 0 });
         g_ticket = 0;
-        g_async.clear();
+        g_async.clear(); g_flushes.clear();
         std::vector<std::vector<std::string>> twin(n);
         std::atomic<int> ready{0};
         auto producer = [&](int p, std::function<void(int, int, std::string &)> send_one) {
@@ -153,7 +170,7 @@ int main(int argc, char **argv)
             f = (i % 5 == 0) ? nullptr : heapstr("/src/dir" + std::to_string(p) + "/file" + std::to_string(i % 3) + ".cpp");
             fn = (i % 5 == 0) ? nullptr : heapstr("void Cls" + std::to_string(p) + "::fn" + std::to_string(i) + "(int, const QString &)");
             c = (i % 7 == 3) ? nullptr : heapstr("cat." + std::to_string(i % 4));
-            ln = i * 3 + p; ty = TYPES[(i + p) % 4];
+            ln = i * 3 + p; ty = TYPES[(i + p) % 5];
             text = QString::number(p) + QLatin1Char(' ') + QString::number(i) + QStringLiteral(" payload é中 ") + QString(i % 11, QLatin1Char('z'));
         };
         std::vector<std::thread> ths;
@@ -200,11 +217,16 @@ int main(int argc, char **argv)
                     case QtDebugMsg: ml.debug("%s", u.constData()); break;
                     case QtInfoMsg: ml.info("%s", u.constData()); break;
                     case QtWarningMsg: ml.warning("%s", u.constData()); break;
-                    default: ml.critical("%s", u.constData()); break;
+                    case QtCriticalMsg: ml.critical("%s", u.constData()); break;
+                    default: {      // fatal level without the abort of qFatal(): the documented entry point, called directly
+                        QMessageLogContext ctx(f, ln, fn, c);
+                        lg.processMessage(QtFatalMsg, ctx, text);
+                    } break;
                     }
                     record('T', p, i);
                     qint64 t1 = QDateTime::currentMSecsSinceEpoch();
                     o << (int)ty << "|h" << hex(u) << "|" << cs(f) << "|" << ln << "|" << cs(fn) << "|" << cs(c) << "|" << t0 << ".." << t1
+                      << "~" << (int)Qt::LocalTime << "~" << QDateTime::fromMSecsSinceEpoch(t0).offsetFromUtc() << "~*"
                       << "|*|" << (quint64) reinterpret_cast<quintptr>(QThread::currentThreadId()) << "|-||-";
                     tw = o.str();
                     scrub(f); scrub(fn); scrub(c);
@@ -222,6 +244,7 @@ int main(int argc, char **argv)
         for (int p = 0; p < n; p++)
             for (size_t i = 0; i < twin[p].size(); i++) o << "TW " << p << " " << i << " " << twin[p][i] << "\n";
         for (auto &r : g_async) o << "AS " << r.k << " " << r.p << " " << r.i << " " << r.onworker << " " << r.d << "\n";
+        for (auto &f : g_flushes) o << "FL " << f.p << " " << f.i << " " << f.onworker << "\n";
         o << "END";
         std::cout << o.str() << std::endl;
     }
